@@ -366,11 +366,48 @@ def _is_slice(e, name, lower, upper):
     return (lo, up)
 
 
+SAMPLE_NUMBERS = [0, 5, 12, 100, 999, 1000, 1001, 9999, 10000, 12345, 100000, 123456, 999999, 1000000, 1234567, 12345678, 123456789, 1234567890, 10 ** 12 + 1]
+
+
+def _evaluate_grouping(ck, fi):
+    """Idiom-independent decision: fold friendly_number (English locale) for a fixed set of integers of every digit count
+    1..13, both signs, with the mini evaluator (helpers of the class/module are inlined) and compare with the grouped form.
+    Returns False if the function is outside the evaluator's subset (the structural rules then take over)."""
+    from ..x_mini import Mini
+
+    def resolve_call(call):
+        f = call.func
+        if isinstance(f, ast.Attribute) and q.dotted(f.value) in ("self", "cls", "Locale") and ck.repo.has_func(F, "Locale." + f.attr):
+            return ck.repo.func(F, "Locale." + f.attr).node
+        if isinstance(f, ast.Name) and ck.repo.has_func(F, f.id):
+            return ck.repo.func(F, f.id).node
+        return None
+
+    results = {}
+    try:
+        for v in SAMPLE_NUMBERS + [-x for x in SAMPLE_NUMBERS if x]:
+            results[v] = Mini(resolve_call=resolve_call, attrs={"self.code": "en_US"}).call_function(fi.node, [v])
+    except AnalysisError as e:
+        ck.note("friendly_number is outside the mini evaluator's subset (%s): structural grouping rules applied instead" % e)
+        return False
+    for v in sorted(results, key=lambda x: (abs(x), x < 0)):
+        got, want = results[v], format(v, ",")
+        if got == want:
+            ck.ob("C46.grouping", fi, fi.node, True, "friendly_number(%d) folds to %r" % (v, got), construct="value %d" % v)
+            continue
+        sign_only = v < 0 and results.get(-v) == format(-v, ",")
+        rule = "C46.sign-free-grouping" if sign_only else "C46.grouping"
+        ck.ob(rule, fi, fi.node, False, "friendly_number(%d) must read back as that integer with three-digit groups: expected %r, the code yields %r" % (v, want, got), construct="value %d -> %r" % (v, got))
+    return True
+
+
 def rule_grouping(ck, fi):
     prm = [p for p in fi.params() if p != "self"]
     if len(prm) != 1:
         raise AnalysisError("friendly_number does not take exactly the value")
     P = prm[0]
+    if _evaluate_grouping(ck, fi):
+        return
     def _shrinks(w):
         for st in w.body:
             if isinstance(st, ast.Assign) and len(st.targets) == 1 and isinstance(st.targets[0], ast.Name) and _is_slice(st.value, st.targets[0].id, None, None) is not None:
@@ -679,7 +716,7 @@ MUTANTS = [
     ("seeded C46-adv2: aware datetimes in other zones re-labelled as UTC", _m("format_date", replace_expr(lambda n: isinstance(n, ast.Compare) and _src(n) == "date.tzinfo is None", lambda n: parse_expr("date.tzinfo is not datetime.timezone.utc"))), "C46.same-time-scale"),
     ("numeric timestamps converted in local time then labelled UTC", _m("format_date", replace_expr(lambda n: isinstance(n, ast.Call) and _src(n.func).endswith("fromtimestamp"), lambda n: ast.Call(func=n.func, args=n.args[:1], keywords=[]))), "C46.same-time-scale"),
     ("undo F26a repair: clock-skew window tested on .seconds alone", _m("format_date", replace_expr(lambda n: isinstance(n, ast.Call) and _src(n).endswith(".total_seconds()"), lambda n: ast.Attribute(value=n.func.value, attr="seconds", ctx=ast.Load()))), "C46.seconds-with-days"),
-    ("seeded C46-adv3: ungrouped shortcut decided on the signed value", _m("friendly_number", replace_expr(lambda n: isinstance(n, ast.Compare) and "self.code not in" in _src(n), lambda n: parse_expr("self.code not in ('en', 'en_US') or value < 1000"))), "C46.grouping"),
+    ("seeded C46-adv3: ungrouped shortcut decided on the signed value", _m("friendly_number", replace_expr(lambda n: isinstance(n, ast.Compare) and "self.code not in" in _src(n), lambda n: parse_expr("self.code not in ('en', 'en_US') or value < 1000"))), ("C46.grouping", "C46.sign-free-grouping")),
     ("ungrouped shortcut for everything below a million", _m("friendly_number", replace_expr(lambda n: isinstance(n, ast.Compare) and "self.code not in" in _src(n), lambda n: parse_expr("self.code not in ('en', 'en_US') or abs(value) < 1000000"))), "C46.grouping"),
     ("undo F26b repair: signed text is chunked", _m("friendly_number", replace_expr(lambda n: isinstance(n, ast.Call) and _src(n) == "abs(value)", lambda n: ast.Name(id="value", ctx=ast.Load()))), "C46.sign-free-grouping"),
     ("minus sign dropped for negatives", _m("friendly_number", replace_expr(lambda n: isinstance(n, ast.IfExp) and isinstance(n.body, ast.Constant) and n.body.value == "-", lambda n: ast.Constant(value=""))), "C46.sign-free-grouping"),
